@@ -418,6 +418,7 @@ def run(run):
         f"E2 deviation-bounded: {len(BASE_KINDS)} generated base documents + repository test inputs x noise kinds "
         "{comment, PI, title, desc, metadata(with RDF), foreign-namespace element with children, id-less symbol with content, whitespace, "
         "foreign-namespace attribute (ns declared on root / on the element; also with local names that equal SVG attributes: fill, opacity, transform, display, d, cx, width, id, style), attribute-less wrapper g around 1-3 siblings, XML declaration, PI+comment before root}: "
+        "3 hand-written bases whose authored ids look like generated ones (a / a_0 / a_1 gradients, nested-svg-viewport-0 clipPath); for comment / PI / whitespace noise additionally the caller-parsed-tree entry SVG(lxml tree) (comments must not survive); "
         "all single insertions at every tree position (quick; a subset of bases additionally with drop_unsupported=True / allow_text=True), all pairs on the generated set (thorough). Oracle: canonical form (gradient ids relabelled "
         "by first use, defs sorted, gradient parameters rounded to 5 places) of convert(N(D)) equals that of convert(D); same exception type counts as equal. "
         "Non-trivial = distinct noisy documents whose conversion returned."
